@@ -227,4 +227,5 @@ Record ch_case := {
   ch_hash_equal : bool;                    (* ConfigManager.ConfigInfo().ConfigHash equal? (separate processes) *)
   ch_path : list string;                   (* field names from config.Config down to the edited setting ([] = not applicable) *)
   ch_struct_equal : bool;                  (* hashstructure.Hash of the parsed Config alone (external labels blanked) equal? *)
+  ch_same_as_fresh : bool;                 (* the second hash was taken in a process that had loaded the first text before: equal to the hash a fresh process computes? (true when no history was used) *)
 }.
